@@ -226,10 +226,12 @@ def gen_simplices(rng, n):
     return out
 
 
-def compare_projections(pid, rng, n, trace_lines=True, tag="projcorr"):
+def compare_projections(pid, rng, n, trace_lines=True, tag="projcorr", per_leaf=8, budget=150000):
     """/repo's project_line_origin / project_triangle_origin / project_tetra_to_origin (both Nesterov modules, jitted)
     against Model/NesterovLoop.v on generated simplices: rewritten rows (exactly), inside flag, ray (1e-9)."""
     simp = gen_simplices(rng, n)
+    directed, leaf_hist = leaf_directed_tetrahedra(rng, per_leaf=per_leaf, budget=budget)
+    simp += directed
     res = cm.run_impl_parallel(pid, "narrowbproj", [dict(simplices=simp[i::8], trace_lines=trace_lines and i == 0) for i in range(8)],
                                timeout=900, tag="proj")
     impl = [None] * len(simp)
@@ -250,7 +252,8 @@ def compare_projections(pid, rng, n, trace_lines=True, tag="projcorr"):
             rows.append(_v(p))
         return "project_f [" + "; ".join(rows) + "]"
     outs = cm.coq_eval_lines(pid, HEADER, [expr(P) for P in simp], tag=tag, per_file=100, timeout=1500)
-    stats = dict(compared=0, matched=0, skipped_unstable=0, mismatch=0, by_size={})
+    stats = dict(compared=0, matched=0, skipped_unstable=0, mismatch=0, by_size={}, tetra_leaves_reached=len(leaf_hist),
+                 tetra_leaf_histogram={str(k): v for k, v in leaf_hist.items()})
     suspects = []
     for i, (P, o, x) in enumerate(zip(simp, impl, outs)):
         code, ray, rows = parse(x)
@@ -276,22 +279,28 @@ def compare_projections(pid, rng, n, trace_lines=True, tag="projcorr"):
     mism = []
     if suspects:
         # near-ties: does the model's own discrete outcome change under 1-10 ulp perturbations of the input points?
-        ex, idx = [], []
+        def signature(code, rows, Pin):
+            """discrete outcome: inside flag and WHICH input points ended up in which row"""
+            order = []
+            for r in rows:
+                order.append(next((j for j, p in enumerate(Pin) if list(p) == list(r)), -1))
+            return (code, tuple(order))
+        ex, perts = [], []
         for (i, name, why) in suspects:
             P = simp[i]
             for kv in range(8):
                 mag = 3e-16 if kv % 2 == 0 else 2e-15
                 pert = [[rng.uniform(-mag, mag) for _ in range(3)] for _ in P]
                 ex.append(expr(P, pert))
-            idx.append(i)
+                perts.append([[x * (1.0 + e) for x, e in zip(p, pe)] for p, pe in zip(P, pert)])
         o2 = cm.coq_eval_lines(pid, HEADER, ex, tag=tag + "2", per_file=100, timeout=1500)
         for k, (i, name, why) in enumerate(suspects):
             base = parse(outs[i])
-            sig0 = (base[0], len(base[2]))
+            sig0 = signature(base[0], base[2], simp[i])
             unstable = False
-            for x in o2[8 * k: 8 * k + 8]:
+            for x, Pp in zip(o2[8 * k: 8 * k + 8], perts[8 * k: 8 * k + 8]):
                 c2, _, rows2 = parse(x)
-                if (c2, len(rows2)) != sig0:
+                if signature(c2, rows2, Pp) != sig0:
                     unstable = True
             if unstable:
                 stats["skipped_unstable"] += 1
